@@ -57,6 +57,7 @@ Inductive case :=
    harness obtained from the bytes after the header with the real library ([] and [] when the frame is
    not compressed) *)
 | CLiveZ (version : Z) (tracing : bool) (stream : Z) (r : request) (body zbody out : bytes)
+| CSessionBatchGuard (n : Z) (refused : bool)      (* Session.ExecuteBatch of n entries returned ErrTooManyStmts *)
 | CBatchGuard (version : Z) (refused : bool)       (* Conn.executeBatch refused the batch with ErrUnsupported *)
 | CTooBig (buflen : Z) (refused : bool).           (* finish returned ErrFrameTooBig for a buffer of this size *)
 
@@ -139,6 +140,7 @@ Definition check (c : case) : bool :=
       builds_with (Some (observed_comp body zbody)) (observed_decomp body zbody) v tracing stream r out
   | CConnUse v comp scons ks stream out => builds v comp false stream (conn_use_keyspace scons ks) out
   | CConnPrepare v comp tracing ks stmt stream out => builds v comp tracing stream (conn_prepare v ks stmt) out
+  | CSessionBatchGuard n refused => Bool.eqb (session_batch_refused n) refused
   | CBatchGuard v refused => Bool.eqb (conn_batch_refused v) refused
   | CTooBig n refused => Bool.eqb (too_big n) refused
   end.
